@@ -634,3 +634,57 @@ def run(ctx):
     ctx.sample({'server_case': scases[0][:600]})
     ctx.sample({'framing_case': fcases[len(fcases) // 2][:400]})
     ctx.sample({'proxy_case': pcases[0][:600]})
+
+
+# ---------------------------------------------------------------------- replay
+def structurally_legal(op, abstract):
+    if abstract is None or len(abstract) != 1:
+        return False
+    it = abstract[0]
+    if it['status'] == 0:
+        return it['op'] == op.code.value and it['payload'] is not None
+    return it['status'] == 1 and it['reason'] is not None and it['payload'] is None and it['op'] in (None, op.code.value)
+
+
+def replay(ctx, rp):
+    """Re-evaluate a recorded violation: response-side inputs are replayed exactly (response bytes + chunking on the named
+    method and version); everything else by re-running the deterministic check with the recorded seed and tier."""
+    import ast
+    load_own_findings(ctx)
+    inp = rp.get('input') or {}
+    if 'chunks' in inp and 'method' not in inp:
+        chunks = [bytes.fromhex(c) for c in inp['chunks']]
+        obs, sock = read_observe(chunks)
+        ctx.log('KMIPProtocol.read on the recorded chunks ->', repr(obs)[:200])
+        data = b''.join(chunks)
+        flen = 8 + int.from_bytes(data[4:8], 'big') if len(data) >= 8 else None
+        if obs[0] == 'ok' and (flen is None or len(data) < flen):
+            ctx.violation({'client': 'protocol', 'what': 'truncated-stream-delivered'}, inp, rp.get('what', ''))
+        if flen is not None and len(data) >= flen and (obs[0] != 'ok' or obs[1] != data[:flen]):
+            ctx.violation({'client': 'protocol', 'what': 'frame-not-delivered-intact'}, inp, rp.get('what', ''))
+        return ctx.finish()
+    if 'response_hex' in inp and inp.get('method') in D.OPS_BY_NAME and 'request_hex' not in inp:
+        op = D.OPS_BY_NAME[inp['method']]
+        version = KV[inp['kmip_version']]
+        frame = bytes.fromhex(inp['response_hex'])
+        plan = ast.literal_eval(inp['chunking']) if 'chunking' in inp else ('whole',)
+        rng = random.Random(rp.get('seed', 0))
+        for attempt in range(12):
+            kwargs = op.args(rng, version)
+            out, resp, sock = scripted_call(op, version, kwargs, raw=frame, plan=plan)
+            if sock.sent:
+                break
+        m = D.decode_response(version, frame)
+        abstract = [D.ritem_of_batch_item(bi) for bi in m.batch_items] if m is not None else None
+        exp = None
+        legal = structurally_legal(op, abstract)
+        if legal and abstract[0]['status'] == 0:
+            exp = D.to_val(op.expect(m.batch_items[0].response_payload))
+        label = (rp.get('signature') or {}).get('response', 'replayed')
+        ctx.log('%s under %s with the recorded response (%r) ->' % (op.name, version.name, plan), D.outcome_plain(out))
+        oracle(ctx, op, version, label, legal, abstract, exp, out, truncated=(plan[0] == 'truncate'), witness=dict(inp))
+        return ctx.finish()
+    ctx.seed = rp.get('seed', ctx.seed)
+    ctx.tier = rp.get('tier', ctx.tier)
+    run(ctx)
+    return ctx.finish()
